@@ -172,6 +172,15 @@ func (rc *realController) Finalize(release *v1beta1.BatchRelease) error {
 			return err
 		}
 		klog.InfoS("Finalize: deployment bluegreen release: wait all pods updated and ready", "Deployment", klog.KObj(rc.object))
+	} else if rc.object != nil && rc.object.DeletionTimestamp == nil && rc.object.Spec.Paused {
+		// finalised before Initialize ever ran (the release was cancelled while still Preparing):
+		// there is nothing to restore, but the workload webhook paused the Deployment for this
+		// release and nobody else will resume it
+		patchData := patch.NewDeploymentPatch()
+		patchData.UpdatePaused(false)
+		if err := rc.client.Patch(context.TODO(), util.GetEmptyObjectWithKey(rc.object), patchData); err != nil {
+			return err
+		}
 	}
 
 	// wait all pods updated and ready
